@@ -30,7 +30,7 @@ Example c14_history :
   let ops := [EConnect 1%nat "s1" "c1" "" "" 60 None 10; ESubscribe "s1" 1 [("t/#", 0)] 20;
               EConnect 2%nat "s2" "c2" "" "" 60 None 30; ESubscribe "s2" 1 [("t/+", 0)] 40;
               EGossip 1%nat 0%nat; EGossip 2%nat 0%nat; EConnect 0%nat "pub" "cp" "" "" 60 None 50; EUnreachable [2%nat];
-              EPublish "pub" (Publish "t/a" "x" 1 false) false 7 60] in
+              EPublish "pub" (Publish "t/a" "x" 1 false false) false 7 60] in
   nth 8%nat (run ops (cnew 3%nat, [])).2 [] = [Appended 1%nat "_default/t/a" "x" 1 false; Call 0%nat 1%nat true; Call 0%nat 2%nat false; Deadline "pub" 120000;
                                         Out "s1" (OPublish "t/a" "x" 0 false false 0)].
 Proof. vm_compute. done. Qed.
